@@ -1,12 +1,37 @@
 (* C20 — Library semantic predicates decide their documented relation on concrete (closed) trees.
-   Only statements + `exact`; proofs are in Logic/SemPredsFacts.v.  Model: Logic/SemPreds.v
-   (count, crop, just = ljust/rjust/ljust_crop/rjust_crop/extend_crop, octal_to_dec family).
+   Only statements + `exact`; proofs are in Logic/SemPredsFacts.v and (proof extension: composition
+   with the parser) Logic/SemPredsCompose.v, Grammar/EarleySpecialise.v.
+   Model: Logic/SemPreds.v (count, crop, just = ljust/rjust/ljust_crop/rjust_crop/extend_crop,
+   octal_to_dec family) and Logic/SemPredsParser.v (isla_predicates.mk_parser over the Earley model
+   of C10, Grammar/Earley.v: mk_grammar, mk_parse, sem_eval_earley).
    Spec vocabulary (SemPredsFacts.v): numeral b s n (s is the base-b numeral of n), count_nodes
-   (number of positions labelled with the needle), octal_rel, just_rel, width_denotes.
-   The Earley parser is not modelled: `parse` is universally quantified under the soundness
-   premise of C10 (C20_*_replacement theorems). *)
-From ISLA Require Import SemPreds SemPredsFacts.
-From Coq Require Import ZArith.
+   (number of positions labelled with the needle), octal_rel, just_rel, width_denotes; L g A w and
+   wf_tree g t from Grammar/Grammar.v.
+
+   FULL now:
+     * verdicts of count / just / crop / width Variables (C20_count_*, C20_just_spec, C20_crop_spec, ...);
+     * replacement trees WITHOUT any parser premise (C20_*_replacement_earley): with the Earley
+       parser every proposed replacement is a valid closed tree of g rooted in the argument's
+       nonterminal, spells a member of L g nt and satisfies the relation.  Hypotheses = the C10 side
+       conditions on g only: canonical_form g, unique keys, "<start>" on no right-hand side, the
+       nonterminal defined in g and different from "<start>" (just: width >= 0, see K_neg_width);
+     * SyntaxError: the predicate raises SyntaxError exactly when the string it asks the parser for
+       is outside L g nt (C20_*_syntaxerr_iff; needs chart fuel >= the computable fuel_bound);
+     * all outcomes of the parser call / of crop (C20_mk_parse_outcomes, C20_crop_earley_outcomes);
+     * a tree rooted in "<start>" is never replaced: mk_parser overwrites the start rule with
+       <start> ::= <start> and the parser rejects every string (C20_start_rooted_syntaxerr,
+       C20_crop_start_rooted_syntaxerr) — observed on the implementation, see design_notes/C20.md.
+   STILL PARTIAL:
+     * "a replacement exists iff the padded / cropped string is in L g nt"
+       (C20_crop_assign_iff_partial, C20_just_assign_iff_partial): the direction <- holds up to the
+       model's out-of-fuel outcome of the TREE ENUMERATION, inherited from
+       C10_parse_member_outcomes_partial (termination of `trees` within a computable fuel is not proved);
+     * octal: the guards K_nonoctal / K_octal_both (recorded defects) and just: K_neg_width as before.
+   The abstract-parser versions (C20_*_replacement, premise = soundness of an arbitrary `parse`) are kept. *)
+From ISLA Require Import SemPreds SemPredsFacts SemPredsParser SemPredsCompose.
+From ISLA Require Import Earley EarleyFuel EarleyPrune.
+From Coq Require Import ZArith List.
+Import ListNotations.
 
 (* ---- count: holds exactly when the needle occurs the given number of times ---- *)
 Theorem C20_count_closed_spec : forall needle t s n, is_openT t = false -> numeral 10 s n ->
@@ -165,3 +190,224 @@ Print Assumptions C20_print_numeral.
 Theorem C20_parse_numeral : forall b s n, (b = 8 \/ b = 10)%N -> numeral b s n -> py_int b s = Some (Z.of_N n).
 Proof. exact py_int_numeral. Qed.
 Print Assumptions C20_parse_numeral.
+
+(* ==================================================================================== *)
+(* PROOF EXTENSION: the predicates composed with the Earley parser of C10                 *)
+(*   mk_grammar g nt  = delete_unreachable (g | {"<start>": [nt]})                        *)
+(*   mk_parse .. g nt inp = child (0,) of EarleyParser(mk_grammar g nt).parse(inp)[0]     *)
+(*   sem_eval_earley fxA fxB fuel g = sem_eval (mk_parse fxA fxB fuel g)                  *)
+(*   fxA / fxB: pinned (false) or repaired (true) form of the parser's two defect spots   *)
+(*   (C10); the statements hold for all four combinations.                                *)
+(* ==================================================================================== *)
+
+(* the former parser premise is a theorem *)
+Theorem C20_mk_parse_sound : forall g fxA fxB fuel nt,
+  canonical_form g = true -> NoDup (map fst g) -> occurs_rhs g START = false ->
+  defined g nt = true -> nt <> START ->
+  forall w r, mk_parse fxA fxB fuel g nt w = Ok r ->
+  wf_tree g r /\ lbl r = nt /\ is_openT r = false /\ yield r = w /\ L g nt w.
+Proof. exact mk_parse_sound. Qed.
+Print Assumptions C20_mk_parse_sound.
+
+(* without the condition on "<start>": the same for the specialised grammar, under C10's guard *)
+Theorem C20_mk_parse_sound_spec : forall g fxA fxB fuel nt,
+  good_grammar g -> NoDup (map fst g) -> defined g WRAP = false -> defined g nt = true ->
+  (fxB = true \/ K_recstart (mk_grammar g nt) START START = false) ->
+  forall w r, mk_parse fxA fxB fuel g nt w = Ok r ->
+  wf_tree (mk_grammar g nt) r /\ lbl r = nt /\ is_openT r = false /\ yield r = w
+  /\ L (mk_grammar g nt) START w.
+Proof. exact mk_parse_sound_spec. Qed.
+Print Assumptions C20_mk_parse_sound_spec.
+
+(* the specialised grammar has the language of nt *)
+Theorem C20_mk_grammar_language : forall g nt, good_grammar g -> defined g nt = true ->
+  occurs_rhs g START = false -> nt <> START ->
+  forall w, L (mk_grammar g nt) START w <-> L g nt w.
+Proof. exact EarleySpecialise.spec_language. Qed.
+Print Assumptions C20_mk_grammar_language.
+
+(* the three outcomes of the parser call (enough fuel for the chart) *)
+Theorem C20_mk_parse_outcomes : forall g fxA fxB fuel nt,
+  canonical_form g = true -> NoDup (map fst g) -> occurs_rhs g START = false ->
+  defined g nt = true -> nt <> START ->
+  forall w, fuel_bound (cgram (mk_grammar g nt) START) (length w) <= fuel ->
+  (exists r, mk_parse fxA fxB fuel g nt w = Ok r /\ wf_tree g r /\ lbl r = nt /\ is_openT r = false
+             /\ yield r = w /\ L g nt w)
+  \/ (mk_parse fxA fxB fuel g nt w = Raise SyntaxErr /\ ~ L g nt w)
+  \/ (mk_parse fxA fxB fuel g nt w = Raise OutOfFuel /\ L g nt w).
+Proof. exact mk_parse_outcomes. Qed.
+Print Assumptions C20_mk_parse_outcomes.
+
+Theorem C20_mk_parse_syntaxerr_iff : forall g fxA fxB fuel nt,
+  canonical_form g = true -> NoDup (map fst g) -> occurs_rhs g START = false ->
+  defined g nt = true -> nt <> START ->
+  forall w, fuel_bound (cgram (mk_grammar g nt) START) (length w) <= fuel ->
+  (mk_parse fxA fxB fuel g nt w = Raise SyntaxErr <-> ~ L g nt w).
+Proof. exact mk_parse_syntaxerr_iff. Qed.
+Print Assumptions C20_mk_parse_syntaxerr_iff.
+
+(* ---- replacement trees, no parser premise ---- *)
+Theorem C20_just_replacement_earley : forall g fxA fxB fuel,
+  canonical_form g = true -> NoDup (map fst g) -> occurs_rhs g START = false ->
+  forall fx lj cr t w z fill k r,
+  is_openT t = false -> defined g (lbl t) = true -> lbl t <> START ->
+  width_denotes w z -> (0 <= z)%Z ->
+  sem_eval_earley fxA fxB fuel g fx (CJust lj cr (TTree t) w fill) = Ok (SAssign k r) ->
+  k = 0 /\ wf_tree g r /\ lbl r = lbl t /\ is_openT r = false
+  /\ Z.of_nat (length (yield r)) = z /\ just_rel lj (yield t) (yield r) /\ L g (lbl t) (yield r).
+Proof. exact just_replacement_earley. Qed.
+Print Assumptions C20_just_replacement_earley.
+
+Theorem C20_crop_replacement_earley : forall g fxA fxB fuel,
+  canonical_form g = true -> NoDup (map fst g) -> occurs_rhs g START = false ->
+  forall fx t wt n k r,
+  is_openT t = false -> defined g (lbl t) = true -> lbl t <> START ->
+  is_openT wt = false -> numeral 10 (yield wt) n ->
+  sem_eval_earley fxA fxB fuel g fx (CCrop (TTree t) (WTree wt)) = Ok (SAssign k r) ->
+  k = 0 /\ wf_tree g r /\ lbl r = lbl t /\ is_openT r = false
+  /\ length (yield r) = N.to_nat n /\ (exists rest, yield t = yield r ++ rest) /\ L g (lbl t) (yield r).
+Proof. exact crop_replacement_earley. Qed.
+Print Assumptions C20_crop_replacement_earley.
+
+Theorem C20_octal_to_decimal_replacement_earley : forall g fxA fxB fuel,
+  canonical_form g = true -> NoDup (map fst g) -> occurs_rhs g START = false ->
+  forall fx os ds o n k r,
+  is_openT o = false -> defined g ds = true -> ds <> START -> numeral 8 (yield o) n ->
+  sem_eval_earley fxA fxB fuel g fx (COctal os ds (TTree o) TVar) = Ok (SAssign k r) ->
+  k = 1 /\ wf_tree g r /\ lbl r = ds /\ is_openT r = false /\ octal_rel (yield o) (yield r)
+  /\ L g ds (yield r).
+Proof. exact octal_to_decimal_replacement_earley. Qed.
+Print Assumptions C20_octal_to_decimal_replacement_earley.
+
+Theorem C20_decimal_to_octal_replacement_earley : forall g fxA fxB fuel,
+  canonical_form g = true -> NoDup (map fst g) -> occurs_rhs g START = false ->
+  forall fx os ds d n k r,
+  is_openT d = false -> defined g os = true -> os <> START -> numeral 10 (yield d) n ->
+  sem_eval_earley fxA fxB fuel g fx (COctal os ds TVar (TTree d)) = Ok (SAssign k r) ->
+  k = 0 /\ wf_tree g r /\ lbl r = os /\ is_openT r = false /\ octal_rel (yield r) (yield d)
+  /\ L g os (yield r).
+Proof. exact decimal_to_octal_replacement_earley. Qed.
+Print Assumptions C20_decimal_to_octal_replacement_earley.
+
+(* ---- SyntaxError of the parser: the predicate raises SyntaxError, exactly for non-members ---- *)
+Theorem C20_crop_syntaxerr_iff : forall g fxA fxB fuel,
+  canonical_form g = true -> NoDup (map fst g) -> occurs_rhs g START = false ->
+  forall fx t wt n,
+  is_openT t = false -> defined g (lbl t) = true -> lbl t <> START ->
+  is_openT wt = false -> numeral 10 (yield wt) n -> N.to_nat n < length (yield t) ->
+  fuel_bound (cgram (mk_grammar g (lbl t)) START) (N.to_nat n) <= fuel ->
+  (sem_eval_earley fxA fxB fuel g fx (CCrop (TTree t) (WTree wt)) = Raise SyntaxErr
+   <-> ~ L g (lbl t) (firstn (N.to_nat n) (yield t))).
+Proof. exact crop_syntaxerr_iff. Qed.
+Print Assumptions C20_crop_syntaxerr_iff.
+
+Theorem C20_just_syntaxerr_iff : forall g fxA fxB fuel,
+  canonical_form g = true -> NoDup (map fst g) -> occurs_rhs g START = false ->
+  forall fx lj cr t w z fill c,
+  is_openT t = false -> defined g (lbl t) = true -> lbl t <> START ->
+  width_denotes w z -> fill_of fill (yield t) = Ok [c] ->
+  Z.of_nat (length (yield t)) <> z -> (cr = true \/ (Z.of_nat (length (yield t)) < z)%Z) ->
+  fuel_bound (cgram (mk_grammar g (lbl t)) START) (length (just_output lj cr c z (yield t))) <= fuel ->
+  (sem_eval_earley fxA fxB fuel g fx (CJust lj cr (TTree t) w fill) = Raise SyntaxErr
+   <-> ~ L g (lbl t) (just_output lj cr c z (yield t))).
+Proof. exact just_syntaxerr_iff. Qed.
+Print Assumptions C20_just_syntaxerr_iff.
+
+Theorem C20_octal_to_decimal_syntaxerr_iff : forall g fxA fxB fuel,
+  canonical_form g = true -> NoDup (map fst g) -> occurs_rhs g START = false ->
+  forall fx os ds o n,
+  is_openT o = false -> defined g ds = true -> ds <> START -> numeral 8 (yield o) n ->
+  fuel_bound (cgram (mk_grammar g ds) START) (length (dec_of_N n)) <= fuel ->
+  (sem_eval_earley fxA fxB fuel g fx (COctal os ds (TTree o) TVar) = Raise SyntaxErr <-> ~ L g ds (dec_of_N n)).
+Proof. exact octal_to_decimal_syntaxerr_iff. Qed.
+Print Assumptions C20_octal_to_decimal_syntaxerr_iff.
+
+Theorem C20_decimal_to_octal_syntaxerr_iff : forall g fxA fxB fuel,
+  canonical_form g = true -> NoDup (map fst g) -> occurs_rhs g START = false ->
+  forall fx os ds d n,
+  is_openT d = false -> defined g os = true -> os <> START -> numeral 10 (yield d) n ->
+  fuel_bound (cgram (mk_grammar g os) START) (length (oct_of_N n)) <= fuel ->
+  (sem_eval_earley fxA fxB fuel g fx (COctal os ds TVar (TTree d)) = Raise SyntaxErr <-> ~ L g os (oct_of_N n)).
+Proof. exact decimal_to_octal_syntaxerr_iff. Qed.
+Print Assumptions C20_decimal_to_octal_syntaxerr_iff.
+
+(* ---- "a replacement exists iff the cropped / padded string is in the language of the nonterminal"
+   FULL STATEMENT: the equivalence below without the premise `... <> Raise OutOfFuel`.
+   PARTIAL: -> holds unconditionally (C20_*_replacement_earley); <- holds unless the model's tree
+   enumeration runs out of fuel (C10_parse_member_outcomes_partial: its termination within a
+   computable fuel is not proved).  SyntaxError is excluded by C20_*_syntaxerr_iff. ---- *)
+Theorem C20_crop_assign_iff_partial : forall g fxA fxB fuel,
+  canonical_form g = true -> NoDup (map fst g) -> occurs_rhs g START = false ->
+  forall fx t wt n,
+  is_openT t = false -> defined g (lbl t) = true -> lbl t <> START ->
+  is_openT wt = false -> numeral 10 (yield wt) n -> N.to_nat n < length (yield t) ->
+  fuel_bound (cgram (mk_grammar g (lbl t)) START) (N.to_nat n) <= fuel ->
+  sem_eval_earley fxA fxB fuel g fx (CCrop (TTree t) (WTree wt)) <> Raise OutOfFuel ->
+  ((exists r, sem_eval_earley fxA fxB fuel g fx (CCrop (TTree t) (WTree wt)) = Ok (SAssign 0 r))
+   <-> L g (lbl t) (firstn (N.to_nat n) (yield t))).
+Proof. exact crop_assign_iff_partial. Qed.
+Print Assumptions C20_crop_assign_iff_partial.
+
+Theorem C20_just_assign_iff_partial : forall g fxA fxB fuel,
+  canonical_form g = true -> NoDup (map fst g) -> occurs_rhs g START = false ->
+  forall fx lj cr t w z fill c,
+  is_openT t = false -> defined g (lbl t) = true -> lbl t <> START ->
+  width_denotes w z -> fill_of fill (yield t) = Ok [c] ->
+  Z.of_nat (length (yield t)) <> z -> (cr = true \/ (Z.of_nat (length (yield t)) < z)%Z) ->
+  fuel_bound (cgram (mk_grammar g (lbl t)) START) (length (just_output lj cr c z (yield t))) <= fuel ->
+  sem_eval_earley fxA fxB fuel g fx (CJust lj cr (TTree t) w fill) <> Raise OutOfFuel ->
+  ((exists r, sem_eval_earley fxA fxB fuel g fx (CJust lj cr (TTree t) w fill) = Ok (SAssign 0 r))
+   <-> L g (lbl t) (just_output lj cr c z (yield t))).
+Proof. exact just_assign_iff_partial. Qed.
+Print Assumptions C20_just_assign_iff_partial.
+
+(* every outcome of crop on closed arguments *)
+Theorem C20_crop_earley_outcomes : forall g fxA fxB fuel,
+  canonical_form g = true -> NoDup (map fst g) -> occurs_rhs g START = false ->
+  forall fx t wt n,
+  is_openT t = false -> defined g (lbl t) = true -> lbl t <> START ->
+  is_openT wt = false -> numeral 10 (yield wt) n ->
+  fuel_bound (cgram (mk_grammar g (lbl t)) START) (N.to_nat n) <= fuel ->
+  let s := firstn (N.to_nat n) (yield t) in
+  let out := sem_eval_earley fxA fxB fuel g fx (CCrop (TTree t) (WTree wt)) in
+  (length (yield t) <= N.to_nat n /\ out = Ok (SBool true))
+  \/ (N.to_nat n < length (yield t) /\
+      ((exists r, out = Ok (SAssign 0 r) /\ wf_tree g r /\ lbl r = lbl t /\ is_openT r = false /\ yield r = s /\ L g (lbl t) s)
+       \/ (out = Raise SyntaxErr /\ ~ L g (lbl t) s)
+       \/ (out = Raise OutOfFuel /\ L g (lbl t) s))).
+Proof. exact crop_earley_outcomes. Qed.
+Print Assumptions C20_crop_earley_outcomes.
+
+(* ---- a tree rooted in "<start>" is never replaced (mk_parser: <start> ::= <start>) ---- *)
+Theorem C20_start_rooted_syntaxerr : forall g fxA fxB fuel w,
+  good_grammar g -> NoDup (map fst g) -> defined g WRAP = false -> defined g START = true ->
+  fuel_bound (cgram (mk_grammar g START) START) (length w) <= fuel ->
+  mk_parse fxA fxB fuel g START w = Raise SyntaxErr.
+Proof. exact mk_parse_start_syntaxerr. Qed.
+Print Assumptions C20_start_rooted_syntaxerr.
+
+Theorem C20_crop_start_rooted_syntaxerr : forall g fxA fxB fuel fx t wt n,
+  good_grammar g -> NoDup (map fst g) -> defined g WRAP = false -> defined g START = true ->
+  is_openT t = false -> lbl t = START -> is_openT wt = false -> numeral 10 (yield wt) n ->
+  N.to_nat n < length (yield t) ->
+  fuel_bound (cgram (mk_grammar g START) START) (N.to_nat n) <= fuel ->
+  sem_eval_earley fxA fxB fuel g fx (CCrop (TTree t) (WTree wt)) = Raise SyntaxErr.
+Proof. exact crop_start_rooted_syntaxerr. Qed.
+Print Assumptions C20_crop_start_rooted_syntaxerr.
+
+(* ---- non-vacuity of the hypotheses above: <start> ::= <o>; <o> ::= <d><o> | <d>; <d> ::= 1|7|0 ---- *)
+Example C20_compose_hypotheses_satisfiable :
+  canonical_form ex_gs = true /\ NoDup (map fst ex_gs) /\ occurs_rhs ex_gs START = false /\
+  is_openT ex_o17 = false /\ defined ex_gs (lbl ex_o17) = true /\ lbl ex_o17 <> START /\
+  fuel_bound (cgram (mk_grammar ex_gs (lbl ex_o17)) START) 3 <= 200 /\
+  sem_eval (mk_parse false false 200 ex_gs) false (CJust true false (TTree ex_o17) (WInt 3) (Some [48%N]))
+    = Ok (SAssign 0 ex_o170) /\
+  fill_of (Some [97%N]) (yield ex_o17) = Ok [97%N] /\
+  sem_eval (mk_parse false false 200 ex_gs) false (CJust true false (TTree ex_o17) (WInt 3) (Some [97%N]))
+    = Raise SyntaxErr /\
+  numeral 10 (yield ex_w1) 1%N /\
+  sem_eval (mk_parse false false 200 ex_gs) false (CCrop (TTree ex_o17) (WTree ex_w1)) = Ok (SAssign 0 ex_o1) /\
+  sem_eval (mk_parse false false 200 ex_gs) false (CCrop (TTree ex_s17) (WTree ex_w1)) = Raise SyntaxErr /\
+  L ex_gs START [49]%N.
+Proof. exact ex_compose_hyps. Qed.
+Print Assumptions C20_compose_hypotheses_satisfiable.
